@@ -46,7 +46,7 @@ def parseHeader (h g mhg mhp c : String) : Option Header := do
   let c ← if c == "-" then some none else c.toNat?.map some
   pure { height := h, gen := g, mhg := mhg, mhp := mhp, commitHeight := c }
 
-def step (s : State) (w : List String) : State × String :=
+def step1 (s : State) (w : List String) : State × String :=
   match w with
   | ["reset", bs, gh] =>
     match bs.toNat?, gh.toNat? with
@@ -91,6 +91,40 @@ def step (s : State) (w : List String) : State × String :=
     | none => (s, "bad-op")
   | _ => (s, "bad-op")
 
-def main : IO Unit := Driver.run (initGenesis 1 0) step
+/-- Driver state: the BFT state plus, for every block on the chain, the state before it was
+processed (what `revert` — deletion of the tip block — goes back to). -/
+structure DState where
+  cur : State
+  stack : List State
+
+/-- `revert` deletes the tip block: the state saved before that block is restored (the block's vote
+update and the parameters / keys set while it was the tip are undone). `restart` (new module object
+over the same store) and `tryblock` (candidate processed on a staged store which is dropped) do not
+change the state: the model has no state besides the store. -/
+def step (d : DState) (w : List String) : DState × String :=
+  match w with
+  | ["revert"] =>
+    match d.stack with
+    | p :: rest => ({ cur := p, stack := rest }, "ok " ++ dump p)
+    | [] => (d, "err")
+  | ["restart"] => (d, "ok " ++ dump d.cur)
+  | ["tryblock", h, g, mhg, mhp, c] =>
+    match parseHeader h g mhg mhp c with
+    | some hd =>
+      match process d.cur hd with
+      | .ok s' => (d, "ok " ++ dump s')
+      | .error _ => (d, "err")
+    | none => (d, "bad-op")
+  | "reset" :: _ =>
+    let (s', out) := step1 d.cur w
+    ({ cur := s', stack := [] }, out)
+  | "block" :: _ =>
+    let (s', out) := step1 d.cur w
+    if out.startsWith "ok " then ({ cur := s', stack := d.cur :: d.stack }, out) else ({ d with cur := s' }, out)
+  | _ =>
+    let (s', out) := step1 d.cur w
+    ({ d with cur := s' }, out)
+
+def main : IO Unit := Driver.run ({ cur := initGenesis 1 0, stack := [] } : DState) step
 
 end Driver.BFT
